@@ -199,6 +199,8 @@ func posPrograms() [][][]posOp {
 		{{R(2)}, {W("XY")}},
 		{{W("AB"), R(2)}, {S(1)}},
 		{{W("AB")}, {R(2)}, {S(2)}},
+		// a Read reaching two whole chunks past the end of the file (several chunks report an end of file, in any order), then a Write at the position it left
+		{{S(5), R(8), W("Z")}, {S(0)}},
 	}
 }
 
